@@ -118,10 +118,12 @@ def gen_box_case(r, maxlen, ctx=None):
     fam = r.choice(["WWCS", "WWCS", "ATMATS", "ATMATS", "ADMLLW", "MMR"])
     c = r.choice([2, 2, 3, 3, 4, 4, 5])
     P = FAMILY_P[fam](c)
-    n = r.range(max(2, 1), 6)
+    n = r.choice([1, 2, 2, 3, 3, 4, 4, 5, 6])         # a single example (one simplex / one box block) included
     labels = [r.below(c) for _ in range(n)]
+    if r.chance(1, 6): labels = [labels[0]] * n     # all examples of one class
     labels[r.below(n)] = c - 1                      # numberOfClasses(target) must be c
-    cnum, cshift = r.choice([(1, 0), (1, 0), (2, 0), (1, 1), (4, 0), (3, 0), (1, 2), (5, 1)])
+    # C: ordinary values, non-dyadic-friendly ones (3, 5/2) and extreme magnitudes (2^-10, 2^10)
+    cnum, cshift = r.choice([(1, 0), (1, 0), (2, 0), (1, 1), (4, 0), (3, 0), (1, 2), (5, 1), (1, 10), (1024, 0)])
     # linear part: all ones (what the trainer passes), reinforced-style, or small integers
     lk = r.below(10)
     lin = []
@@ -143,7 +145,9 @@ def gen_box_case(r, maxlen, ctx=None):
         K = [[sum(G[i][t] * G[j][t] for t in range(rk)) for j in range(n)] for i in range(n)]
         if r.chance(1, 2):
             for i in range(n): K[i][i] += 1        # strictly positive definite
-        kshift = r.below(3)
+        if r.chance(1, 10) and n >= 2:
+            G[1] = list(G[0]); K = [[sum(G[i][t] * G[j][t] for t in range(rk)) for j in range(n)] for i in range(n)]   # duplicate example
+        kshift = r.choice([0, 1, 2, 0, 1, 2, 9])    # 9: entries of order 2^-9 (the 1e-12 curvature thresholds come into play)
     shr = 0 if r.chance(1, 8) else 1
     ops = ["box %s %d %d %d %d %d %d %s" % (fam, c, n, cnum, cshift, shr, kshift,
            " ".join(map(str, labels + lin + [K[i][j] for i in range(n) for j in range(n)])))]
@@ -181,6 +185,10 @@ def gen_box_case(r, maxlen, ctx=None):
         ops.append(gen_solve_op(r, ctx, full=True))          # a whole run of QpSolver::solve to its stopping rule
     if ctx is not None:
         ctx.hist("box_family", fam); ctx.hist("box_classes", c); ctx.hist("box_examples", n)
+        ctx.hist("box_C", f"{cnum}/2^{cshift}"); ctx.hist("box_kernel_scale", f"2^-{kshift}")
+        ctx.hist("box_kernel_kind", "zero" if all(v == 0 for row in K for v in row) else "diagonal" if kk < 3 else "gram")
+        ctx.hist("box_linear_part", "ones" if lk < 6 else "reinforced-like" if lk < 8 else "random")
+        ctx.hist("box_shrinking", shr)
     return ops
 
 
@@ -207,6 +215,7 @@ def gen_sx_case(r, maxlen, ctx=None):
     if ctx is not None:
         h = out[0].split()
         ctx.hist("sx_family", h[1]); ctx.hist("sx_classes", h[2]); ctx.hist("sx_examples", h[3])
+        ctx.hist("sx_C", f"{h[4]}/2^{h[5]}"); ctx.hist("sx_shrinking", h[6]); ctx.hist("sx_kernel_scale", f"2^-{h[7]}")
     return out
 
 
